@@ -80,7 +80,15 @@ def _edge_justified(q, exp_instant):
             r = (sod / unit) % 60
             if val > 60 or 60 - r > F(4, 10 ** 15):
                 return False
+    if _float_24(q):
+        # decimal hours: divmod(x, 24) of a tiny negative x is 24.0
+        return 24 - sod / 3600 <= F(4, 10 ** 15)
     return True
+
+
+def _float_24(q):
+    return type(q._hour_of_day) is float and q._hour_of_day == 24.0 and \
+        q._minute_of_hour is None and q._second_of_minute is None
 
 
 def _check_result(ctx, repo, tag, snap, d_len, d_integral, d_key, d_units,
@@ -108,7 +116,9 @@ def _check_result(ctx, repo, tag, snap, d_len, d_integral, d_key, d_units,
     else:
         identity = R.tp_key(q) == snap["key"]
         slack = F(0) if stays_int else SLACK
-        if not R.tp_valid(mode, q, allow_24=identity, slack=slack):
+        if not R.tp_valid(mode, q, allow_24=identity or (
+                not stays_int and _float_24(q) and _edge_justified(q, exp)),
+                slack=slack):
             prob = "result has a field outside its legal range"
         else:
             got = R.tp_instant(mode, q)
@@ -224,7 +234,9 @@ def install(ctx, repo, probes):
                 exc, key), before=key)
             return
         slack = F(0) if integral else SLACK
-        if not R.tp_valid(mode, p, allow_24=False, slack=slack):
+        if not R.tp_valid(mode, p, allow_24=(
+                not integral and _float_24(p) and _edge_justified(p, inst)),
+                slack=slack):
             ctx.violation("tick_over.invalid", "_tick_over left illegal "
                           "fields %r from %r (mode %s)" % (
                               R.tp_key(p), key, mode), before=key,
